@@ -142,6 +142,19 @@ func workloads() []workload {
 			sort.Strings(out)
 			return strings.Join(out, "\n"), err
 		}},
+		{"batch-request-errors", func() (string, error) {
+			ps, err := cedar.NewPolicySetFromBytes("f.cedar", []byte(policyDoc))
+			if err != nil {
+				return "", err
+			}
+			cb := func(batch.Result) error { return nil }
+			// three variables used and not bound; three bound and not used
+			e1 := batch.Authorize(context.Background(), ps, ents, batch.Request{Principal: batch.Variable("p"), Action: req.Action, Resource: batch.Variable("r"),
+				Context: types.NewRecord(types.RecordMap{"a": batch.Variable("x")}), Variables: batch.Variables{}}, cb)
+			e2 := batch.Authorize(context.Background(), ps, ents, batch.Request{Principal: req.Principal, Action: req.Action, Resource: req.Resource, Context: req.Context,
+				Variables: batch.Variables{"u1": {types.Long(1)}, "u2": {types.Long(1)}, "u3": {types.Long(2)}}}, cb)
+			return fmt.Sprint(e1, " / ", e2), nil
+		}},
 		{"authorize-over-multi-parent-hierarchies", func() (string, error) {
 			// several small hierarchies in which nodes have two or more parents (diamonds, a
 			// cycle, a fan): the traversal iterates parent SETS, whose order is a map order;
